@@ -81,7 +81,8 @@ pub struct Gen<'a> {
     pub rng: &'a mut Rng,
     pub k: Knobs,
     /// functions defined so far (name, arity)
-    funcs: Vec<(String, usize)>,
+    /// functions defined so far: name and, per parameter, whether it is a string parameter
+    funcs: Vec<(String, Vec<bool>)>,
     /// open FOR variables (innermost last)
     open_loops: Vec<String>,
     /// names used so far
@@ -272,9 +273,20 @@ impl<'a> Gen<'a> {
     }
 
     fn call(&mut self, depth: u32) -> Expr {
-        let (name, arity) = self.rng.pick(&self.funcs.clone());
+        let (name, kinds) = self.rng.pick(&self.funcs.clone());
         let d = depth.saturating_sub(1);
-        let args = (0..arity).map(|_| self.num_expr(d.min(1))).collect();
+        let args = kinds
+            .iter()
+            .map(|is_str| {
+                // an ill-typed argument now and then (TYPE MISMATCH while binding the parameter)
+                let flip = self.k.failures && self.rng.chance(1, 30);
+                if *is_str != flip {
+                    self.str_expr(1)
+                } else {
+                    self.num_expr(d.min(1))
+                }
+            })
+            .collect();
         Expr::Call(name, args)
     }
 
@@ -331,9 +343,24 @@ impl<'a> Gen<'a> {
         let mut items = vec![];
         for i in 0..n {
             let d = self.k.expr_depth;
-            items.push(PItem::E(self.any_expr(d)));
+            // juxtaposition without a separator (`PRINT "A" C "B"`) is legal where no operator can
+            // continue the expression: string literal next to a scalar variable or another literal
+            let prev_lit_or_var = matches!(items.last(), Some(PItem::E(Expr::Str(_))) | Some(PItem::E(Expr::Var(_))));
+            if prev_lit_or_var {
+                let e = if matches!(items.last(), Some(PItem::E(Expr::Var(_)))) || self.rng.chance(1, 2) {
+                    Expr::Str(self.rng.pick(WORDS).to_string())
+                } else {
+                    Expr::Var(self.num_var())
+                };
+                items.push(PItem::E(e));
+            } else {
+                items.push(PItem::E(self.any_expr(d)));
+            }
             if i + 1 < n {
-                items.push(if self.rng.chance(2, 3) { PItem::Semi } else { PItem::Comma });
+                let juxtapose = matches!(items.last(), Some(PItem::E(Expr::Str(_))) | Some(PItem::E(Expr::Var(_)))) && self.rng.chance(1, 4);
+                if !juxtapose {
+                    items.push(if self.rng.chance(2, 3) { PItem::Semi } else { PItem::Comma });
+                }
             }
         }
         if n > 0 && self.rng.chance(1, 4) {
@@ -732,7 +759,13 @@ impl<'a> Gen<'a> {
             let wide = self.rng.chance(1, 3);
             let arity = 1 + self.rng.usize(if wide { 3 } else { 1 });
             // parameters may shadow globals; bodies may read globals and callers' parameters
-            let params: Vec<String> = (0..arity).map(|_| self.rng.pick(&["J", "K", "Q", "C", "Y"]).to_string()).collect();
+            let mut params: Vec<String> = (0..arity).map(|_| self.rng.pick(&["J", "K", "Q", "C", "Y"]).to_string()).collect();
+            // a string parameter in one function out of four (parameter typing follows the `$` suffix)
+            if self.k.strings && self.rng.chance(1, 4) {
+                let i = self.rng.usize(arity);
+                params[i] = self.rng.pick(&["J$", "K$", "Q$"]).to_string();
+            }
+            let kinds: Vec<bool> = params.iter().map(|p| p.ends_with('$')).collect();
             let d = self.k.expr_depth.min(2);
             let saved = (self.k.arrays, self.k.rnd, self.k.failures);
             let saved_funcs = self.funcs.clone();
@@ -743,7 +776,20 @@ impl<'a> Gen<'a> {
                 self.k.rnd = false;
                 self.funcs.clear();
             }
-            let body = self.num_expr(d);
+            let mut body = self.num_expr(d);
+            if let Some(sp) = params.iter().find(|p| p.ends_with('$')) {
+                // make the string parameter matter: (P$ = "abc") * 3 + <body>
+                let probe = Expr::Bin(
+                    BinOp::Mul,
+                    Box::new(Expr::Paren(Box::new(Expr::Bin(
+                        self.rng.pick(&[BinOp::Eq, BinOp::Lt, BinOp::Ne]),
+                        Box::new(Expr::Var(sp.clone())),
+                        Box::new(Expr::Str(self.rng.pick(WORDS).to_string())),
+                    )))),
+                    Box::new(Expr::Num(3.0)),
+                );
+                body = Expr::Bin(BinOp::Add, Box::new(probe), Box::new(body));
+            }
             (self.k.arrays, self.k.rnd, self.k.failures) = saved;
             self.funcs = saved_funcs;
             let stmt = Stmt::Def {
@@ -751,7 +797,7 @@ impl<'a> Gen<'a> {
                 params,
                 body,
             };
-            self.funcs.push((name, arity));
+            self.funcs.push((name, kinds));
             if defs_first {
                 let mut l = vec![stmt];
                 if self.k.multi_stmt && self.rng.chance(1, 4) {
@@ -842,8 +888,8 @@ impl<'a> Gen<'a> {
             // at the deepest level a user function is called: with `depth` frames on the shared stack
             // the call needs frame depth+1 (31 -> fine, 32 -> refused)
             if !self.funcs.is_empty() && self.rng.chance(2, 3) {
-                let (name, arity) = self.rng.pick(&self.funcs.clone());
-                let args = (0..arity).map(|_| Expr::Num(2.0)).collect();
+                let (name, kinds) = self.rng.pick(&self.funcs.clone());
+                let args = kinds.iter().map(|s| if *s { Expr::Str("abc".into()) } else { Expr::Num(2.0) }).collect();
                 self.push_line(vec![Stmt::Print {
                     q: false,
                     items: vec![PItem::E(Expr::Str("deep".into())), PItem::Semi, PItem::E(Expr::Call(name, args))],
